@@ -14,7 +14,8 @@ sequence of surveys over the same world is threaded by the model itself; only ro
       units  = g/true/measured/detected/c:true:measured:detected,...  joined by ';'   ("-" if none)
       obs    = id:vis:spatialRollDrawn:temporalRollDrawn:storedOutcomeAfter           joined by ';'
       tags   = g.c joined by ','                                                       ("-" if none)
-  flag <inst|-> <thr> <measured>          -> 0|1
+  flag <inst|-> <thr> <measured>          -> 0|1      mobile, site not yet in processing
+  flags <smallThr> <measured>             -> 0|1      stationary, first record of a site
 All rates in the common unit, measured rates and thresholds of `flag` in hundredths of it.
 -/
 open LdarModel LdarModel.Sensor LdarModel.Proto
@@ -115,6 +116,10 @@ def step (st : Store) (toks : List String) : Store × String :=
     match optInt? inst, int? thr, int? m with
     | some inst, some thr, some m => (st, showBool (flagCandidate inst thr m))
     | _, _, _ => (st, "bad-op")
+  | ["flags", thr, m] =>
+    match int? thr, int? m with
+    | some thr, some m => (st, showBool (flagStationaryFresh thr m))
+    | _, _ => (st, "bad-op")
   | _ => (st, "bad-op")
 
 def main : IO Unit := runDriver step ([] : Store)
